@@ -57,6 +57,7 @@ type World struct {
 	notFullRBF bool
 	dead   bool // a real operation did not return: nothing more can be done in this process
 	immature *chainkit.Coin
+	envAbort bool
 	order    []*txInfo // creation order (deterministic iteration)
 }
 
@@ -185,7 +186,7 @@ func (w *World) close() {
 	if w.o != nil {
 		w.o.Close()
 	}
-	if w.k != nil && !w.dead {
+	if w.k != nil && (!w.dead || w.envAbort) {
 		// Chain.Close() is not this property's subject: do not let it wedge the run
 		done := make(chan bool, 1)
 		go func() { w.k.Close(); done <- true }()
@@ -759,10 +760,21 @@ func (w *World) reload() {
 	w.steps++
 	w.mustOK("reload")
 	ok := false
+	envFail := false
 	pan, hung := w.guarded("MempoolSave+Load", func() {
 		txpool.MempoolSave(true)
+		// MempoolSave ignores write errors: a full /tmp (many harnesses share it) must not look like a defect
+		if b, err := os.ReadFile(common.GocoinHomeDir + txpool.MEMPOOL_FILE_NAME); err != nil || !bytes.HasSuffix(b, txpool.END_MARKER) {
+			envFail = true
+			return
+		}
 		ok = txpool.MempoolLoad()
 	})
+	if envFail {
+		w.r.Hit("env:mempool-file-not-written")
+		w.dead, w.envAbort = true, true // the model has already reloaded: stop this scenario
+		return
+	}
 	w.r.Hit("op:save-reload")
 	if hung || pan != "" {
 		w.propFail("panic:reload", "MempoolSave/MempoolLoad: "+pan)
